@@ -211,7 +211,7 @@ Qed.
 
 (* ------------------------------------------------------------------ RFC 7234 cache of an endpoint *)
 
-Definition hc_areq (fx8 : bool) (H : string -> string) (c : hc_cfg) (x : alist) : areq :=
+Definition hc_areq (fx8 : bool) (H : string -> string) (c : hc_cfg) (x : hc_req) : areq :=
   {| a_key := Some (hc_key H c); a_fresh := (OAllow (hc_result c x), 1); a_store := hc_stores fx8 c;
      a_recheck := OAllow |}.
 
@@ -237,26 +237,31 @@ Proof.
   - destruct (a_fresh a) as [o n]. simpl. f_equal. apply IH. intros b I. apply N. now right.
 Qed.
 
-(** RFC 7234 cache: outside the guard of C11-F8 (requests that differ in a header the server
-    lists in Vary) every response served from the cache is the one a fresh request would get *)
+(** RFC 7234 cache: outside the guards of C11-F8 (requests that differ in a header the
+    server lists in Vary) and C11-F9 (POST requests with different bodies) every response
+    served from the cache is the one a fresh request would get *)
 Theorem hc_cache_transparent : forall fx8 H c h,
-  g_F8 fx8 c h = false ->
+  g_F8 fx8 c h = false -> g_F9 fx8 c h = false ->
   map sr_out (hc_run fx8 H c [] h) = map (fun x => OAllow (hc_result c x)) h.
 Proof.
-  intros fx8 H c h G. rewrite hc_run_arun. unfold g_F8 in G.
-  destruct (hc_stores fx8 c) eqn:S; simpl in G.
+  intros fx8 H c h G8 G9. rewrite hc_run_arun. unfold g_F8 in G8. unfold g_F9 in G9.
+  destruct (hc_stores fx8 c) eqn:S; simpl in G8, G9.
   - rewrite cache_transparent_abstract; [now rewrite map_map|].
     intros a b k r Ia Ib _ _ Fa.
     apply in_map_iff in Ia as (xa & <- & Ia). apply in_map_iff in Ib as (xb & <- & Ib).
     simpl in *. injection Fa as <-.
-    destruct (exists_pair_false _ h xa xb G Ia Ib) as [->|[P _]]; [reflexivity|].
-    apply negb_false_iff in P. apply String.eqb_eq in P. unfold hc_result. now rewrite P.
+    destruct (exists_pair_false _ h xa xb G8 Ia Ib) as [->|[P8 _]]; [reflexivity|].
+    apply negb_false_iff in P8. apply String.eqb_eq in P8.
+    unfold hc_result, hc_body. rewrite P8.
+    destruct (hc_is_post c) eqn:Po; simpl in G9; [|reflexivity].
+    destruct (exists_pair_false _ h xa xb G9 Ia Ib) as [->|[P9 _]]; [reflexivity|].
+    apply negb_false_iff in P9. apply String.eqb_eq in P9. now rewrite P9.
   - rewrite arun_nostore; [now rewrite map_map|].
     intros a I. apply in_map_iff in I as (x & <- & _). exact S.
 Qed.
 
-Definition w_hc : hc_cfg :=
-  {| hc_url := "http://ctx/h/vary-user"; hc_method := "GET"; hc_vary := ["X-User"]; hc_cacheable := true |}.
+Definition w_hc (method : string) (vary : list string) : hc_cfg :=
+  {| hc_url := "http://ctx/h/x"; hc_method := method; hc_vary := vary; hc_cacheable := true |}.
 
 (** C11-F8: the response fetched for X-User: alice — which the server declares to
     vary with X-User — is served to the request with X-User: bobby *)
@@ -264,7 +269,92 @@ Theorem F8_refuted :
   exists c a b, g_F8 false c [a; b] = true /\
     forall H, map sr_out (hc_run false H c [] [a; b]) <> map (fun x => OAllow (hc_result c x)) [a; b].
 Proof.
-  exists w_hc, [("X-User", "alice")], [("X-User", "bobby")]. split; [reflexivity|].
+  exists (w_hc "GET" ["X-User"]), {| hq_headers := [("X-User", "alice")]; hq_body := "" |},
+         {| hq_headers := [("X-User", "bobby")]; hq_body := "" |}.
+  split; [reflexivity|].
   intros H E. cbn [hc_run] in E. unfold hc_exec in E. simpl in E. rewrite String.eqb_refl in E. simpl in E.
   discriminate.
+Qed.
+
+(** C11-F9: a POST with the body p=bobby is answered with the stored response to the POST with the body p=alice *)
+Theorem F9_refuted :
+  exists c a b, g_F9 false c [a; b] = true /\ g_F8 false c [a; b] = false /\
+    forall H, map sr_out (hc_run false H c [] [a; b]) <> map (fun x => OAllow (hc_result c x)) [a; b].
+Proof.
+  exists (w_hc "POST" []), {| hq_headers := []; hq_body := "p=alice" |}, {| hq_headers := []; hq_body := "p=bobby" |}.
+  splits; try reflexivity.
+  intros H E. cbn [hc_run] in E. unfold hc_exec in E. simpl in E. rewrite String.eqb_refl in E. simpl in E.
+  discriminate.
+Qed.
+
+(* ------------------------------------------------------------------ key cache of the jwt authenticator *)
+
+Lemma jk_key_inj H c t c' t' k :
+  injective H -> jk_key H c t = Some k -> jk_key H c' t' = Some k -> p_jk_F4 H (c, t) (c', t') = false ->
+  jurl_render (jk_url c) (t_iss t) = jurl_render (jk_url c') (t_iss t') /\ t_kid t = t_kid t'.
+Proof.
+  intros Hinj K K' G. unfold jk_key in K, K'. unfold p_jk_F4 in G. simpl in G.
+  destruct (jk_enabled c); [|discriminate]. destruct (jk_enabled c'); [|discriminate]. simpl in G.
+  apply orb_false_iff in G as [G _].
+  injection K as <-. injection K' as E. apply hex_inj in E. apply Hinj in E. symmetry in E.
+  apply (no_boundary_shift _ _ G) in E. unfold jk_fields in E. injection E as _ Eu Ek. auto.
+Qed.
+
+Lemma jk_lookup_ext w c t c' t' :
+  jurl_render (jk_url c) (t_iss t) = jurl_render (jk_url c') (t_iss t') -> t_kid t = t_kid t' ->
+  jk_lookup w c t = jk_lookup w c' t'.
+Proof. intros Eu Ek. unfold jk_lookup. now rewrite Eu, Ek. Qed.
+
+(** cache invariant: every cached key belongs to the JWKS URL and key id it was fetched for *)
+Definition jk_backed (H : string -> string) (w : jwks_world) (seen : list (jk_cfg * jtok)) (cch : cache) : Prop :=
+  forall k r, lookup k cch = Some r ->
+    exists x, In x seen /\ jk_key H (fst x) (snd x) = Some k /\ jk_lookup w (fst x) (snd x) = JKKey (rs_sub r).
+
+Lemma jk_run_transparent H w : forall h seen cch,
+  injective H -> g_jk_F4 H (seen ++ h) = false -> jk_backed H w seen cch ->
+  map sr_out (jk_run H w cch h) = map (fun x => jk_fresh w (fst x) (snd x)) h.
+Proof.
+  induction h as [|[c t] h IH]; intros seen cch Hinj G B; [reflexivity|].
+  cbn [jk_run]. unfold jk_exec.
+  assert (G' : g_jk_F4 H ((seen ++ [(c, t)]) ++ h) = false) by (now rewrite <- app_assoc).
+  destruct (jk_key H c t) as [k|] eqn:K.
+  - destruct (lookup k cch) as [r|] eqn:L.
+    + cbn [map sr_out fst snd]. f_equal.
+      * destruct (B k r L) as ([c' t'] & I & K' & Lk). simpl in K', Lk.
+        assert (P : p_jk_F4 H (c', t') (c, t) = false).
+        { destruct (exists_pair_false _ (seen ++ (c, t) :: h) (c', t') (c, t) G) as [E|[P _]]; auto.
+          - apply in_or_app; auto.
+          - apply in_or_app; right; left; reflexivity.
+          - injection E as -> ->. unfold p_jk_F4. simpl.
+            assert (S : forall f, guard_shift f f = false).
+            { intro f. unfold guard_shift. induction f as [|x f IHf]; [reflexivity|].
+              apply orb_false_iff in IHf as [I1 I2]. apply negb_false_iff in I1. simpl.
+              assert (Sx : fld_same_shape x x = true) by (destruct x; simpl; auto; apply Nat.eqb_refl).
+              rewrite Sx, I1, Nat.eqb_refl. simpl. exact I2. }
+            rewrite !S. now rewrite andb_false_r. }
+        destruct (jk_key_inj H c' t' c t k Hinj K' K P) as [Eu Ek].
+        unfold jk_fresh. rewrite <- (jk_lookup_ext w c' t' c t Eu Ek), Lk. reflexivity.
+      * apply (IH (seen ++ [(c, t)])); auto.
+        intros k0 r0 L0. destruct (B k0 r0 L0) as (x & I & Kx & Lx). exists x. splits; auto. apply in_or_app; auto.
+    + cbn [map sr_out fst snd]. f_equal. apply (IH (seen ++ [(c, t)])); auto.
+      intros k0 r0 L0. destruct (jk_lookup w c t) as [| |o] eqn:Lk.
+      * destruct (B k0 r0 L0) as (x & I & Kx & Lx). exists x. splits; auto. apply in_or_app; auto.
+      * destruct (B k0 r0 L0) as (x & I & Kx & Lx). exists x. splits; auto. apply in_or_app; auto.
+      * simpl in L0. destruct (String.eqb_spec k0 k) as [->|N].
+        -- injection L0 as <-. exists (c, t). splits; auto. apply in_or_app; right; left; reflexivity.
+        -- destruct (B k0 r0 L0) as (x & I & Kx & Lx). exists x. splits; auto. apply in_or_app; auto.
+  - cbn [map sr_out fst snd]. f_equal. apply (IH (seen ++ [(c, t)])); auto.
+    intros k0 r0 L0. destruct (B k0 r0 L0) as (x & I & Kx & Lx). exists x. splits; auto. apply in_or_app; auto.
+Qed.
+
+(** Key cache of the jwt authenticator: for a collision-free SHA-256 and every
+    history of tokens — any claimed issuers, key ids and signing keys, templated or
+    literal JWKS URL — in which no two pre-images can be shifted against each
+    other, a token is verified with the cache exactly as without it: the key
+    comes from the JWKS URL rendered for THIS token's issuer. *)
+Theorem jk_cache_transparent : forall H w h,
+  injective H -> g_jk_F4 H h = false ->
+  map sr_out (jk_run H w [] h) = map (fun x => jk_fresh w (fst x) (snd x)) h.
+Proof.
+  intros H w h Hinj G. apply (jk_run_transparent H w h [] []); auto. intros k r L. discriminate.
 Qed.
